@@ -76,6 +76,19 @@ func c07Matchers(run *Run) {
 	col[5] = 0xbc
 	inputs = append(inputs, col)
 	kinds = append(kinds, "bolt-collides-with-dubbo-thrift")
+	// other frames carrying a foreign magic where their own format has free fields
+	for _, first := range [][]byte{{1, 1}, {2, 1}, {0xda, 0xbb}, {0, 0}, []byte("GE"), []byte("PR"), {0, 1}} {
+		for _, at4 := range [][]byte{{0xda, 0xbc}, {0x10, 0x01}, {0x10, 0x03}} {
+			b := r.Bytes(40)
+			copy(b, first)
+			copy(b[4:], at4)
+			if r.Pct(50) {
+				b[2], b[3] = 0, 40
+			}
+			inputs = append(inputs, b)
+			kinds = append(kinds, "crafted-magic-overlap")
+		}
+	}
 	for i := 0; i < run.N(25, 400); i++ {
 		b := r.Bytes(r.Intn(30))
 		inputs = append(inputs, b)
